@@ -110,7 +110,7 @@ class Checker:
                 json.dump({"property": self.pid, "rule": v["rule"], "key": v["key"], "fn": v.get("fn"),
                            "site": v.get("site"), "detail": v.get("detail"), "path": v.get("path"),
                            "configs": v.get("bad_configs")}, fh, indent=1)
-            print(f"  violated: {v['key']}\n    at {v.get('site')}: {v.get('detail')}")
+            print(f"  violated: {v['key']}  [configs {','.join(v.get('bad_configs') or [])}]\n    at {v.get('site')}: {v.get('detail')}")
             if v.get("path"):
                 for line in v["path"][:12]:
                     print(f"      {line}")
